@@ -7,6 +7,7 @@ pub mod c01_commit;
 pub mod c05_revoke;
 pub mod c09_order;
 pub mod c10_restart;
+pub mod pay;
 
 pub struct Verdicts<'a> {
 	pub rep: &'a mut Report,
@@ -29,6 +30,8 @@ pub trait Monitor {
 	fn on_obs(&mut self, w: &World, o: &Obs, v: &mut Verdicts);
 	/// called at quiescent points (after a successful settle)
 	fn on_settled(&mut self, _w: &World, _v: &mut Verdicts) {}
+	/// called right before the last quiescent point of the run is judged
+	fn before_final_settle(&mut self) {}
 	/// called once at the end of the run
 	fn on_end(&mut self, _w: &World, _v: &mut Verdicts) {}
 }
